@@ -371,6 +371,31 @@ func numReparses(f *big.Float) bool {
 	return err == nil && p.RawEquals(cty.NumberVal(f))
 }
 
+// numTextOwnPrec: does Text('f',-1) re-parsed at the number's OWN precision give the number
+// back?  (math/big's shortest-text search takes the rounding interval to be symmetric; below a
+// power of two the neighbour is only half as far, so for many exact powers of two the text
+// it picks belongs to the neighbour below.)
+func numTextOwnPrec(f *big.Float) bool {
+	if f.IsInf() {
+		return false
+	}
+	g, _, err := big.ParseFloat(f.Text('f', -1), 10, f.Prec(), big.ToNearestEven)
+	return err == nil && g.Cmp(f) == 0
+}
+
+// c15NumCause: why a number that fails NumOK fails it.
+//
+//	num-text-not-exact-at-own-precision  the decimal text does not even identify the number at
+//	              its own precision (math/big, exact powers of two: 2^513 held at 512 bits)
+//	num-reparse   the text identifies the number at its own precision, which is not the 512
+//	              bits it is parsed at (float64 1e23, low-precision big.Floats)
+func c15NumCause(f *big.Float) string {
+	if !numTextOwnPrec(f) {
+		return "num-text-not-exact-at-own-precision"
+	}
+	return "num-reparse"
+}
+
 // c15SideAll collects the side conditions of C15.roundtrip_partial that (v, t)
 // violates.  (A Go mirror of the Lean predicates: compared with them on every case
 // through json.applies, and used to name the root cause of a round-trip failure.)
@@ -395,7 +420,8 @@ func c15SideAll(v cty.Value, t cty.Type, inSet bool, out map[string]bool) {
 	case vt == cty.Number:
 		f := v.AsBigFloat()
 		if !numReparses(f) {
-			out["num-reparse"] = true
+			out["num-reparse"] = true // NumOK fails (the Lean predicate); the finer cause next to it
+			out[c15NumCause(f)] = true
 		} else if inSet {
 			p, _ := cty.ParseNumberVal(f.Text('f', -1))
 			if cty.VerifHash(p) != cty.VerifHash(v) {
@@ -450,7 +476,7 @@ func c15SideAll(v cty.Value, t cty.Type, inSet bool, out map[string]bool) {
 func c15Side(v cty.Value, t cty.Type) string {
 	all := map[string]bool{}
 	c15SideAll(v, t, false, all)
-	for _, s := range []string{"nonconforming", "nested-placeholder-null", "nested-placeholder-empty", "num-reparse", "set-hash"} {
+	for _, s := range []string{"nonconforming", "nested-placeholder-null", "nested-placeholder-empty", "num-text-not-exact-at-own-precision", "num-reparse", "set-hash"} {
 		if all[s] {
 			return s
 		}
@@ -526,8 +552,9 @@ func c15PredTy(v cty.Value, c cty.Type) (ty cty.Type, refused bool) {
 // c15Diff walks the original v and the round-trip result v2 (of one type) in parallel and
 // names, for every place where they are not the same value, the reason:
 //
-//	num-reparse   a number came back as exactly the 512-bit parse of its own Text('f',-1),
-//	              which is not RawEquals to it (recorded finding)
+//	num-reparse / num-text-not-exact-at-own-precision (c15NumCause)
+//	              a number came back as exactly the 512-bit parse of its own Text('f',-1),
+//	              which is not RawEquals to it (recorded findings)
 //	set-hash      a set with a number inside whose re-parsed form hashes into another bucket
 //	              (recorded finding; members of a set cannot be paired up, so inside a set the
 //	              reason is taken from the numbers it holds)
@@ -548,7 +575,7 @@ func c15Diff(v, v2 cty.Value, out map[string]bool) {
 		f := v.AsBigFloat()
 		exp, err := cty.ParseNumberVal(f.Text('f', -1))
 		if err == nil && !numReparses(f) && v2.RawEquals(exp) {
-			out["num-reparse"] = true
+			out[c15NumCause(f)] = true
 		} else {
 			out["unexpected-number"] = true
 		}
@@ -560,6 +587,8 @@ func c15Diff(v, v2 cty.Value, out map[string]bool) {
 		in := map[string]bool{}
 		c15SideAll(v, ty, false, in)
 		switch {
+		case in["num-text-not-exact-at-own-precision"]:
+			out["num-text-not-exact-at-own-precision"] = true
 		case in["num-reparse"]:
 			out["num-reparse"] = true
 		case in["set-hash"]:
@@ -638,6 +667,8 @@ func c15Cause(kind string, v cty.Value, t cty.Type, v2 cty.Value) string {
 			}
 		}
 		switch {
+		case d["num-text-not-exact-at-own-precision"]:
+			return "num-text-not-exact-at-own-precision"
 		case d["num-reparse"]:
 			return "num-reparse"
 		case d["set-hash"]:
@@ -741,6 +772,12 @@ func c15Unmarshal(ctx *Ctx, b []byte, t cty.Type) (v cty.Value, outcome string) 
 	if outcome == "ok" {
 		impl = "ok " + encVal(v)
 		tb.addVal(v)
+		// C15.unmarshal_type_has_no_annotations on the real output (/repo afdc0a2)
+		ctx.Eval("noopt "+tree+" "+encTy(t), strings.Contains(encTy(t), " 1)"))
+		if !v.Type().Equals(v.Type().WithoutOptionalAttributesDeep()) {
+			ctx.Fail(Failure{Site: "decoded-type", Sig: "optional-annotations-in-value-type", What: "Unmarshal returned a value whose type carries optional-attribute annotations",
+				Input: tree + " " + encTy(t), GoLit: fmt.Sprintf("json.Unmarshal([]byte(%q), %#v)", b, t), Outcome: encTy(v.Type())})
+		}
 	} else if strings.Contains(encTy(t), "(E ") || strings.Contains(encTy(t), "D") {
 		tb.addSetMembersOfDoc(b, t, 0)
 	}
@@ -928,6 +965,8 @@ func runC15Corpus(ctx *Ctx) {
 		{cty.ListVal([]cty.Value{cty.NullVal(cty.List(cty.String)), cty.ListVal([]cty.Value{str("a")})}), cty.List(cty.List(cty.DynamicPseudoType))},
 		{cty.ListVal([]cty.Value{cty.ListValEmpty(cty.String), cty.ListVal([]cty.Value{str("a")})}), cty.List(cty.List(cty.DynamicPseudoType))},
 		{cty.NumberFloatVal(1e23), cty.Number},
+		// 2^513 held at cty's own 512 bits: math/big's shortest text is the neighbour's
+		{cty.MustParseNumberVal(new(big.Int).Lsh(big.NewInt(1), 513).String()), cty.Number},
 		{cty.SetVal([]cty.Value{cty.NumberFloatVal(3.9477794105)}), cty.Set(cty.Number)},
 		{cty.SetVal([]cty.Value{cty.NumberFloatVal(3.9477794105), cty.MustParseNumberVal("3.9477794105")}), cty.Set(cty.Number)},
 		// a placeholder nested UNDER an optional attribute: still a type loss, and the annotation is not its cause
